@@ -463,11 +463,18 @@ def collected_dict(case):
         res = run_frontend(case)
         produced = [(i, r.stream_id, r.results[0].test) for i, r in enumerate(res) if len(r.results) == 1]
         col = collect_results(res, how="dict")
+        lst = collect_results(res, how="list")
     out = {}
     for stream, pk in col.items():
         for pkg, tests in pk.items():
             for test, arr in tests.items():
                 out[(stream, pkg, test)] = core.canon_flags(arr)
+    # list form (what the stores use): flags AND the data / axes each CollectedResult carries
+    import fn_collect as fc
+    for cr in lst:
+        out[("list", cr.stream_id, cr.package, cr.test)] = [
+            fc._canon_arr(cr.results, "f"), fc._canon_arr(cr.data, "d"), fc._canon_arr(cr.tinp, "t"),
+            fc._canon_arr(cr.zinp, "d"), fc._canon_arr(cr.lat, "d"), fc._canon_arr(cr.lon, "d")]
     return out, res
 
 
